@@ -9,7 +9,7 @@ import gosub_wide as gw  # noqa: E402
 
 GROUP = "GoSub"
 XQ = ("Arith", "Opt")
-THEOREMS = ["C01_core_compile_correct_partial", "C01_refuted_const_subexpression", "C01_stmt_compile_correct_partial"]
+THEOREMS = ["C01_core_compile_correct_partial", "C01_refuted_const_subexpression", "C01_stmt_compile_correct_partial", "C01_stmt_full"]
 META = {
     "group": "GoSub",
     "technique": "Coq proof of compile correctness (Go reference semantics vs the Ego compiler's emission run on the VM instruction "
@@ -18,15 +18,15 @@ META = {
     "text": "Theorem C01_core_compile_correct_partial: for every integer kind, type mode, environment and Go-typed expression over "
             "+ - * / with literals and variables (excluding an operator applied to two literals and literals above MaxInt64) the "
             "compiled code pushes exactly Go's value with Go's type, or fails with division by zero exactly when Go panics. "
-            "Theorem C01_stmt_compile_correct_partial: for straight-line programs of x := e, x = e, x += -= *= /= e, x++ / x--, "
-            "fmt.Println(e) and sequencing, the bytecode compile_stmt emits (let markers, Load/arith/SymbolCreate/Store/DropToMarker, "
-            "native print), run by the VM model from its first instruction, ends with exactly Go's final environment and printed "
+            "Theorem C01_stmt_compile_correct_partial: for programs of x := e, x = e, x += -= *= /= e, x++ / x--, fmt.Println(e), "
+            "sequencing and if/else on a comparison nested to any depth, the bytecode compile_stmt emits (let markers, "
+            "Load/arith/SymbolCreate/Store/DropToMarker, native print, BranchFalse/Branch with absolute addresses), run by the VM "
+            "model from its first instruction, ends with exactly Go's final environment and printed "
             "values and an empty stack, or stops with division by zero after Go's output exactly when Go panics (every kind, every "
             "mode). C01_refuted_const_subexpression shows an excluded cell is a real divergence. go_eval / go_exec are compared with the "
             "real Go toolchain, the VM model with the real ego binary in three modes, and compile_stmt (if/else included) instruction "
             "for instruction with the real compiler's dumped bytecode (line markers and the fetch of fmt.Println canonicalised) on "
-            "every run; the wider documented subset is compared Ego-vs-Go on generated programs. partial: if/else is modelled, compiled "
-            "and tied (bytecode + outputs) but its simulation proof is not finished; loops, calls, strings/bools, block-scoped "
+            "every run; the wider documented subset is compared Ego-vs-Go on generated programs. partial: loops, calls, strings/bools, block-scoped "
             "declarations and everything beyond are observed by the differential only",
     "note": "Trusted: Coq kernel; the instruction semantics of Opt/Model.v and Arith/Model.v (tied by C02/C03); GoSub.compile as a "
             "hand transliteration of the expression compiler; lib/gosub_wide.py (program generator, batch runner, comparison); the Go "
